@@ -9,8 +9,11 @@
   Property theorems only; the model is `Model/GoBind.lean` (what node.go does, not an idealisation), the lemmas are in
   `Lemmas/GoBind*.lean`.  Vocabulary:
 
-    * `compatible g t false` — Go type `g` is bound to schema type `t` (the part of `verifyCompatibility`'s vocabulary
-      that the property names: pointers for optional / nullable);
+    * `compatible g t false` — Go type `g` is bound to schema type `t`: pointers for optional / nullable (the
+      vocabulary the property names), and the two other slot shapes `verifyCompatibility` accepts and the node code
+      serves: ONE pointer on a slot that is not nullable (struct field, list element, map value, the value behind an
+      optional field's or union member's pointer), and a bare nilable Go type (slice, []byte, `datamodel.Link`,
+      `datamodel.Node`) for an optional or a nullable struct field (`GoBind.fslot`);
     * `t.wf` — the schema type is well-formed (C08: distinct field names, member names, discriminants, enum
       representation strings / ints);
     * `view g t false gv` — `Wrap(&gv, t)` read in full through the node API (`none`: the read fails);
@@ -19,12 +22,21 @@
     * `gv.norm` — the normalisations Unwrap∘build applies (nil for empty slices and `Keys`, `Values` made and in step);
     * `wt g t false gv` — `gv` is a Go value of type `g` and an inhabitant of `t`;
     * `intsFit g t false v` — every integer of the canonical typed value `v` (and every enum member's
-      representation int) fits the Go kind it is bound to.
+      representation int) fits the Go kind it is bound to;
+    * `nilableSlotEmptyList g t false v` — somewhere in `v` an EMPTY list is assembled into an optional or nullable
+      struct field bound to a bare Go slice (known finding `C19/nilable-slot-empty-list-becomes-absent`).
 
-  All five statements hold at full strength for the code as it is (library HEAD 7093040).  The only hypotheses left
-  are `t.wf` and `compatible`, i.e. what the schema compiler and `verifyCompatibility` establish before any node
-  exists; each is needed (`view_assign_needs_wf`, `assign_refuses_iff_needs_wf`,
-  `assign_refuses_iff_needs_compatible`).  Two deviations that earlier versions of this file stated as counterexamples
+  `assign_view`, `view_total`, `view_conforms`, `assign_refuses_iff` and `unwrap_well_typed` hold at full strength
+  for the code as it is (library HEAD 7d5a566) over the whole vocabulary; their only hypotheses are `t.wf` and
+  `compatible`, i.e. what the schema compiler and `verifyCompatibility` establish before any node exists; each is
+  needed (`view_assign_needs_wf`, `assign_refuses_iff_needs_wf`, `assign_refuses_iff_needs_compatible`).
+  `view_assign` is FALSE for the bare-slice slots because of the known finding
+  `C19/nilable-slot-empty-list-becomes-absent` (the list assembler only appends: an empty list leaves the slice nil,
+  and nil reads as absent / null): `view_assign_partial` excludes exactly that (`nilableSlotEmptyList … = false`),
+  `view_assign_fails_nilable_slot_empty_list` is the counterexample, and `view_norm_partial` /
+  `norm_loses_empty_list_in_nilable_slot` say the same of the normalisation `GoVal.norm` that `assign_view` and
+  `marshal_unmarshal` are stated up to.  For Go types without such a slot the side condition is vacuous
+  (no bare slot, nothing to exclude: the pointer vocabulary the property names is covered in full).  Two deviations that earlier versions of this file stated as counterexamples
   (`view_assign_fails_enum` / `assign_accepts_unfitting_enum`, `view_assign_fails_uint` /
   `view_total_needs_readable_uint`) were repaired in the library (commits 7093040, f5ad5bb); the same inputs are now
   theorems of the repaired behaviour: `enum_300_into_int8_is_refused`, `uint_above_int64_reads_back`.
@@ -46,15 +58,79 @@ theorem unwrap_well_typed (g : GoTy) (t : Ty) (tl : TL) (gv : GoVal) (hwf : t.wf
     (hc : compatible g t false = true) (ha : assign g t tl = some gv) : wt g t false gv = true :=
   assign_wt g t tl gv hwf hc ha
 
-/-- **view_assign.**  For every compatible pair of a Go type and a well-formed schema type and every type-level
-    tree `tl`: if the builder accepts `tl` and `gv` is the Go value behind the built node, then wrapping `gv` shows
-    exactly what was assembled (the normal form of `tl`: fields in declaration order, unset optional fields
-    explicit). -/
-theorem view_assign (g : GoTy) (t : Ty) (tl : TL) (gv : GoVal) (hwf : t.wf = true)
-    (hc : compatible g t false = true) (ha : assign g t tl = some gv) :
+/-- **view_assign_partial.**  For every compatible pair of a Go type and a well-formed schema type and every
+    type-level tree `tl` in which no empty list goes into an optional / nullable field bound to a bare Go slice: if
+    the builder accepts `tl` and `gv` is the Go value behind the built node, then wrapping `gv` shows exactly what was
+    assembled (the normal form of `tl`: fields in declaration order, unset optional fields explicit). -/
+theorem view_assign_partial (g : GoTy) (t : Ty) (tl : TL) (gv : GoVal) (hwf : t.wf = true)
+    (hc : compatible g t false = true) (hne : nilableSlotEmptyList g t false (normalize t tl) = false)
+    (ha : assign g t tl = some gv) :
     view g t false gv = some (normalize t tl) := by
   obtain ⟨w, hw⟩ := view_isSome gv g t false hc (assign_wt g t tl gv hwf hc ha)
-  rw [hw, assign_view g t tl gv hwf hc ha w hw]
+  rw [hw, assign_view g t tl gv hwf hc hne ha w hw]
+
+/-- **view_assign_fails_nilable_slot_empty_list** (known finding `C19/nilable-slot-empty-list-becomes-absent`).
+    `struct { a optional [String] }` bound to `struct{ A []string }` (no pointer: `verifyCompatibility` accepts a
+    nilable type for an optional field), and the nullable variant.  The builder accepts `{a: []}`; the list assembler
+    only appends to the zero value, so the slice stays nil, and nil in such a field reads as absent (null).  Go:
+    `ipld.Unmarshal([]byte(`{"A":[]}`), dagjson.Decode, &v, T)` then `Marshal` gives `{}`. -/
+theorem view_assign_fails_nilable_slot_empty_list :
+    compatible (.struct (GoFields.ofList [([97], .slice .str)]))
+      (.struct (Fields.ofList [⟨[97], [97], true, false, .list .str false⟩]) .map) false = true ∧
+    assign (.struct (GoFields.ofList [([97], .slice .str)]))
+      (.struct (Fields.ofList [⟨[97], [97], true, false, .list .str false⟩]) .map)
+      (.map (TLKVs.ofList [([97], .list .nil)])) = some (.struct (GoVals.ofList [.nilSlice])) ∧
+    view (.struct (GoFields.ofList [([97], .slice .str)]))
+      (.struct (Fields.ofList [⟨[97], [97], true, false, .list .str false⟩]) .map) false
+      (.struct (GoVals.ofList [.nilSlice])) = some (.map (TLKVs.ofList [([97], .absent)])) ∧
+    nilableSlotEmptyList (.struct (GoFields.ofList [([97], .slice .str)]))
+      (.struct (Fields.ofList [⟨[97], [97], true, false, .list .str false⟩]) .map) false
+      (.map (TLKVs.ofList [([97], .list .nil)])) = true ∧
+    -- the nullable variant reads null
+    assign (.struct (GoFields.ofList [([97], .slice .str)]))
+      (.struct (Fields.ofList [⟨[97], [97], false, true, .list .str false⟩]) .map)
+      (.map (TLKVs.ofList [([97], .list .nil)])) = some (.struct (GoVals.ofList [.nilSlice])) ∧
+    view (.struct (GoFields.ofList [([97], .slice .str)]))
+      (.struct (Fields.ofList [⟨[97], [97], false, true, .list .str false⟩]) .map) false
+      (.struct (GoVals.ofList [.nilSlice])) = some (.map (TLKVs.ofList [([97], .null)])) ∧
+    -- behind a pointer (the vocabulary the property names) the empty list survives
+    assign (.struct (GoFields.ofList [([97], .ptr (.slice .str))]))
+      (.struct (Fields.ofList [⟨[97], [97], true, false, .list .str false⟩]) .map)
+      (.map (TLKVs.ofList [([97], .list .nil)])) = some (.struct (GoVals.ofList [.ptr .nilSlice])) ∧
+    view (.struct (GoFields.ofList [([97], .ptr (.slice .str))]))
+      (.struct (Fields.ofList [⟨[97], [97], true, false, .list .str false⟩]) .map) false
+      (.struct (GoVals.ofList [.ptr .nilSlice])) = some (.map (TLKVs.ofList [([97], .list .nil)])) := by decide
+
+/-- **pointer_uint64_reads_back.**  A required, non-nullable Int bound to a Go POINTER (`Count *uint64`, `[]*uint64`):
+    `newNode` looks through the pointer (`nonPtrVal`) when it decides on the unsigned view, so 2^64-1 is stored behind
+    a fresh pointer and reads back exactly; a nil pointer in such a slot is not a value of the type (unreadable). -/
+theorem pointer_uint64_reads_back :
+    compatible (.ptr (.int .u64)) .int false = true ∧
+    assign (.ptr (.int .u64)) .int (.int 18446744073709551615) = some (.ptr (.int 18446744073709551615)) ∧
+    view (.ptr (.int .u64)) .int false (.ptr (.int 18446744073709551615)) = some (.int 18446744073709551615) ∧
+    view (.slice (.ptr (.int .u64))) (.list .int false) false
+      (.slice (GoVals.ofList [.ptr (.int 9223372036854775808)])) = some (.list (TLs.ofList [.int 9223372036854775808])) ∧
+    view (.ptr (.int .u64)) .int false .nilPtr = none ∧ wt (.ptr (.int .u64)) .int false .nilPtr = false ∧
+    assign (.ptr (.int .u64)) .int .null = none := by decide
+
+/-- **optional_in_bare_nilable_is_absent.**  An optional field bound to a bare nilable Go type (`Tags []string`,
+    `Blob []byte`, `Ref datamodel.Link`): nil is absent - by iteration as by lookup - and absent is stored as nil. -/
+theorem optional_in_bare_nilable_is_absent :
+    view (.struct (GoFields.ofList [([97], .slice .str), ([98], .bytes), ([99], .link .iface)]))
+      (.struct (Fields.ofList [⟨[97], [97], true, false, .list .str false⟩, ⟨[98], [98], true, false, .bytes⟩,
+        ⟨[99], [99], true, false, .link⟩]) .map) false
+      (.struct (GoVals.ofList [.nilSlice, .nilSlice, .nilIface]))
+      = some (.map (TLKVs.ofList [([97], .absent), ([98], .absent), ([99], .absent)])) ∧
+    assign (.struct (GoFields.ofList [([97], .slice .str), ([98], .bytes), ([99], .link .iface)]))
+      (.struct (Fields.ofList [⟨[97], [97], true, false, .list .str false⟩, ⟨[98], [98], true, false, .bytes⟩,
+        ⟨[99], [99], true, false, .link⟩]) .map) (.map .nil)
+      = some (.struct (GoVals.ofList [.nilSlice, .nilSlice, .nilIface])) ∧
+    view (.struct (GoFields.ofList [([97], .slice .str), ([98], .bytes), ([99], .link .iface)]))
+      (.struct (Fields.ofList [⟨[97], [97], true, false, .list .str false⟩, ⟨[98], [98], true, false, .bytes⟩,
+        ⟨[99], [99], true, false, .link⟩]) .map) false
+      (.struct (GoVals.ofList [.slice (GoVals.ofList [.str [120]]), .bytes [], .link [1]]))
+      = some (.map (TLKVs.ofList [([97], .list (TLs.ofList [.str [120]])), ([98], .bytes []), ([99], .link [1])])) := by
+  decide
 
 /-- **view_assign_needs_wf.**  Well-formedness of the schema type is needed: an int-represented enum two of whose
     members share the representation int (`Ty.wf` excludes it; `schema.SpawnTypeSystem` does not check it).  `"B"`
@@ -109,6 +185,31 @@ theorem norm_is_needed :
     assign (.slice .str) (.list .str false) (.list .nil) = some .nilSlice ∧
     view (.omap .str) (.map .str false) false (.omap (some []) true .nil) = some (.map .nil) ∧
     assign (.omap .str) (.map .str false) (.map .nil) = some (.omap none false .nil) := by decide
+
+/-- **view_norm_partial.**  The normalisation does not change the data held: the normalised value shows what the
+    value shows - unless the value holds an empty, non-nil slice in an optional / nullable field bound to the bare
+    slice (then Unwrap∘build, and Marshal → Unmarshal, turn "empty list" into absent / null: the known finding). -/
+theorem view_norm_partial (g : GoTy) (t : Ty) (gv : GoVal) (v : TL) (hwf : t.wf = true)
+    (hc : compatible g t false = true) (hwt : wt g t false gv = true) (hv : view g t false gv = some v)
+    (hne : nilableSlotEmptyList g t false v = false) : view g t false gv.norm = some v := by
+  have hn := (view_good gv g t false hwf hc hwt v hv).2.1
+  have := view_assign_partial g t v gv.norm hwf hc (by rw [hn]; exact hne) (assign_view g t gv v hwf hc hwt hv)
+  rwa [hn] at this
+
+/-- **norm_loses_empty_list_in_nilable_slot** (known finding `C19/nilable-slot-empty-list-becomes-absent`, seen from
+    the Go value): `struct{ A []string }{A: []string{}}` with `a` optional shows `{a: []}`; rebuilt (or marshalled and
+    unmarshalled) it is `{A: nil}`, which shows `{a: absent}`. -/
+theorem norm_loses_empty_list_in_nilable_slot :
+    wt (.struct (GoFields.ofList [([97], .slice .str)]))
+      (.struct (Fields.ofList [⟨[97], [97], true, false, .list .str false⟩]) .map) false
+      (.struct (GoVals.ofList [.slice .nil])) = true ∧
+    view (.struct (GoFields.ofList [([97], .slice .str)]))
+      (.struct (Fields.ofList [⟨[97], [97], true, false, .list .str false⟩]) .map) false
+      (.struct (GoVals.ofList [.slice .nil])) = some (.map (TLKVs.ofList [([97], .list .nil)])) ∧
+    (GoVal.struct (GoVals.ofList [.slice .nil])).norm = .struct (GoVals.ofList [.nilSlice]) ∧
+    view (.struct (GoFields.ofList [([97], .slice .str)]))
+      (.struct (Fields.ofList [⟨[97], [97], true, false, .list .str false⟩]) .map) false
+      (.struct (GoVals.ofList [.nilSlice])) = some (.map (TLKVs.ofList [([97], .absent)])) := by decide
 
 /-! ## Every well-typed value can be wrapped and read -/
 
@@ -214,61 +315,75 @@ theorem marshal_unmarshal {β : Type} (enc : DM → β) (dec : β → Option DM)
 /-! ## Non-vacuity: one binding that uses the whole vocabulary -/
 
 /-- `struct { a Int; b optional String; c optional nullable Int; d [nullable Bool]; e {String:Int};
-             f union { | S String "s" | I enum{A=1,B=2}/int "i" } keyed }` -/
+             f union { | S String "s" | I enum{A=1,B=2}/int "i" } keyed;
+             g Int; h optional [String]; i nullable Bytes; j optional Link }` -/
 def exSchema : Ty :=
   .struct (Fields.ofList [⟨[97], [97], false, false, .int⟩, ⟨[98], [98], true, false, .str⟩,
     ⟨[99], [99], true, true, .int⟩, ⟨[100], [100], false, false, .list .bool true⟩,
     ⟨[101], [101], false, false, .map .int false⟩,
     ⟨[102], [102], false, false, .union (Members.ofList [⟨[83], [115], .str, .str⟩,
-      ⟨[73], [105], .int, .enum [⟨[65], [65], 1⟩, ⟨[66], [66], 2⟩] .int⟩]) .keyed⟩]) .map
+      ⟨[73], [105], .int, .enum [⟨[65], [65], 1⟩, ⟨[66], [66], 2⟩] .int⟩]) .keyed⟩,
+    ⟨[103], [103], false, false, .int⟩, ⟨[104], [104], true, false, .list .str false⟩,
+    ⟨[105], [105], false, true, .bytes⟩, ⟨[106], [106], true, false, .link⟩]) .map
 
 /-- `struct { A int8; B *string; C **uint64; D []*bool; E struct{Keys []string; Values map[string]uint16};
-             F struct{ S *string; I *uint8 } }` -/
+             F struct{ S *string; I *uint8 }; G *uint64; H []string; I []byte; J datamodel.Link }`
+    (G: one pointer on a required field; H, I, J: bare nilable types for optional / nullable fields) -/
 def exGo : GoTy :=
   .struct (GoFields.ofList [([97], .int .i8), ([98], .ptr .str), ([99], .ptr (.ptr (.int .u64))),
     ([100], .slice (.ptr .bool)), ([101], .omap (.int .u16)),
-    ([102], .struct (GoFields.ofList [([83], .ptr .str), ([73], .ptr (.int .u8))]))])
+    ([102], .struct (GoFields.ofList [([83], .ptr .str), ([73], .ptr (.int .u8))])),
+    ([103], .ptr (.int .u64)), ([104], .slice .str), ([105], .bytes), ([106], .link .iface)])
 
-/-- `{A: -5, B: nil, C: &nil, D: {nil, &true}, E: {Keys: {"b","a"}, Values: {"a":1, "b":2}}, F: {I: &2}}` -/
+/-- `{A: -5, B: nil, C: &nil, D: {nil, &true}, E: {Keys: {"b","a"}, Values: {"a":1, "b":2}}, F: {I: &2},
+      G: &(1<<64-1), H: {"x"}, I: nil, J: nil}` -/
 def exVal : GoVal :=
   .struct (GoVals.ofList [.int (-5), .nilPtr, .ptr .nilPtr, .slice (GoVals.ofList [.nilPtr, .ptr (.bool true)]),
     .omap (some [[98], [97]]) false (GoKVs.ofList [([97], .int 1), ([98], .int 2)]),
-    .struct (GoVals.ofList [.nilPtr, .ptr (.int 2)])])
+    .struct (GoVals.ofList [.nilPtr, .ptr (.int 2)]),
+    .ptr (.int 18446744073709551615), .slice (GoVals.ofList [.str [120]]), .nilSlice, .nilIface])
 
-/-- `{a: -5, b: absent, c: null, d: [null, true], e: {"b": 2, "a": 1}, f: {I: "B"}}` -/
+/-- `{a: -5, b: absent, c: null, d: [null, true], e: {"b": 2, "a": 1}, f: {I: "B"},
+      g: 2^64-1, h: ["x"], i: null, j: absent}` -/
 def exTL : TL :=
   .map (TLKVs.ofList [([97], .int (-5)), ([98], .absent), ([99], .null),
     ([100], .list (TLs.ofList [.null, .bool true])),
     ([101], .map (TLKVs.ofList [([98], .int 2), ([97], .int 1)])),
-    ([102], .map (TLKVs.ofList [([73], .str [66])]))])
+    ([102], .map (TLKVs.ofList [([73], .str [66])])),
+    ([103], .int 18446744073709551615), ([104], .list (TLs.ofList [.str [120]])), ([105], .null),
+    ([106], .absent)])
 
-/-- the same tree with the fields in another order and the unset field left out, as a builder may be fed -/
+/-- the same tree with the fields in another order and the unset fields left out, as a builder may be fed -/
 def exTLShuffled : TL :=
   .map (TLKVs.ofList [([102], .map (TLKVs.ofList [([73], .str [66])])), ([97], .int (-5)),
-    ([101], .map (TLKVs.ofList [([98], .int 2), ([97], .int 1)])), ([99], .null),
-    ([100], .list (TLs.ofList [.null, .bool true]))])
+    ([105], .null), ([101], .map (TLKVs.ofList [([98], .int 2), ([97], .int 1)])), ([99], .null),
+    ([104], .list (TLs.ofList [.str [120]])), ([100], .list (TLs.ofList [.null, .bool true])),
+    ([103], .int 18446744073709551615)])
 
 -- the hypotheses of every theorem above are satisfiable together, on a value that uses every construction
 example : exSchema.wf = true ∧ compatible exGo exSchema false = true ∧
-    wt exGo exSchema false exVal = true := by decide
+    wt exGo exSchema false exVal = true ∧ nilableSlotEmptyList exGo exSchema false exTL = false := by decide
 -- view_total / view_conforms / view_normal
 example : view exGo exSchema false exVal = some exTL ∧ conforms exSchema false exTL = true ∧
     normalize exSchema exTL = exTL := by decide
--- assign_view: here the value is in normal form except for the order of the association list
-example : assign exGo exSchema exTL = some exVal.norm ∧ exVal.norm ≠ exVal ∧ exVal.norm.norm = exVal.norm := by decide
--- view_assign / unwrap_well_typed, fed in another field order
+-- assign_view / view_norm_partial: here the value is in normal form except for the order of the association list
+example : assign exGo exSchema exTL = some exVal.norm ∧ exVal.norm ≠ exVal ∧ exVal.norm.norm = exVal.norm ∧
+    view exGo exSchema false exVal.norm = some exTL := by decide
+-- view_assign_partial / unwrap_well_typed, fed in another field order
 example : assign exGo exSchema exTLShuffled = some exVal.norm ∧ normalize exSchema exTLShuffled = exTL ∧
     view exGo exSchema false exVal.norm = some exTL ∧ wt exGo exSchema false exVal.norm = true := by decide
 -- assign_refuses_iff: 200 does not fit the int8 field `a`; an unknown union member does not conform
 example : assign exGo exSchema (.map (TLKVs.ofList [([97], .int 200), ([99], .null), ([100], .list .nil),
-      ([101], .map .nil), ([102], .map (TLKVs.ofList [([83], .str [])]))])) = none ∧
+      ([101], .map .nil), ([102], .map (TLKVs.ofList [([83], .str [])])), ([103], .int 1), ([105], .bytes [])])) = none ∧
     intsFit exGo exSchema false (normalize exSchema (.map (TLKVs.ofList [([97], .int 200), ([99], .null),
-      ([100], .list .nil), ([101], .map .nil), ([102], .map (TLKVs.ofList [([83], .str [])]))]))) = false := by decide
--- marshal_unmarshal: the representation of the example (keyed union, enum as int, absent field omitted)
+      ([100], .list .nil), ([101], .map .nil), ([102], .map (TLKVs.ofList [([83], .str [])])), ([103], .int 1),
+      ([105], .bytes [])]))) = false := by decide
+-- marshal_unmarshal: the representation of the example (keyed union, enum as int, absent fields omitted)
 example : unambig exSchema exTL = true ∧
     repr exSchema exTL = some (.map (DMKVs.ofList [([97], .int (-5)), ([99], .null),
       ([100], .list (DMs.ofList [.null, .bool true])),
       ([101], .map (DMKVs.ofList [([98], .int 2), ([97], .int 1)])),
-      ([102], .map (DMKVs.ofList [([105], .int 2)]))])) := by decide
+      ([102], .map (DMKVs.ofList [([105], .int 2)])),
+      ([103], .int 18446744073709551615), ([104], .list (DMs.ofList [.str [120]])), ([105], .null)])) := by decide
 
 end Ipld.Props.C19
